@@ -3859,6 +3859,97 @@ theorem C03_commit_only_at_end_of_data (cfg : Cfg) (oracle : List (List Nat)) (t
         · simp only [Bool.false_eq_true, if_false]; exact same _ rfl
 
 
+/-! ### LMTP replies under recipient rewriting
+
+The reply vector of DATA / `BDAT … LAST` is indexed by RCPT command (`st.rcpts[n]?`, `finalReplyAt … n`).  For
+ANY rewrite table the reply of the `n`-th RCPT command is determined by the deliveries that hold this very RCPT
+TO argument — those of the targets of the destination block of its EFFECTIVE domain —, never by what happened
+to another recipient, be it the address this one is rewritten to or an address that is rewritten to this one. -/
+
+theorem filter_erase_other (sts : List (Nat × Nat)) (s : Nat × Nat) (u : Nat) (h : (s.1 == u) = false) :
+    (sts.erase s).filter (fun x => x.1 == u) = sts.filter (fun x => x.1 == u) := by
+  induction sts with
+  | nil => rfl
+  | cons a as ih =>
+    by_cases ha : a = s
+    · subst ha; simp [h]
+    · rw [List.erase_cons_tail (by simp [ha])]
+      simp [List.filter_cons, ih]
+
+/-- **The LMTP reply vector is indexed by RCPT command, and reply `n` depends only on the statuses filed under the
+RCPT TO argument of command `n`** (go-smtp's collector as `handleDataLMTP` reads it): two status streams that agree
+on the statuses for `u` give the same reply at every position where `u` was accepted (once in the transaction) —
+whatever was reported for other recipients, be they the address `u` is rewritten to or aliases of `u`. -/
+theorem C03_lmtp_reply_depends_only_on_own_statuses (fill u : Nat) : ∀ (keys : List Nat) (sts sts' : List (Nat × Nat)) (n : Nat),
+    keys[n]? = some u → keys.count u = 1 →
+    sts.filter (fun x => x.1 == u) = sts'.filter (fun x => x.1 == u) →
+    (lmtpReplies keys sts fill)[n]? = (lmtpReplies keys sts' fill)[n]? := by
+  intro keys
+  induction keys with
+  | nil => intro sts sts' n hn; simp at hn
+  | cons k rest ih =>
+    intro sts sts' n hn hcnt h
+    cases n with
+    | zero =>
+      simp at hn
+      subst hn
+      have hf : sts.find? (fun s => s.1 == k) = sts'.find? (fun s => s.1 == k) := by
+        rw [← List.head?_filter, ← List.head?_filter, h]
+      simp only [lmtpReplies, hf]
+      cases sts'.find? (fun s => s.1 == k) <;> simp
+    | succ m =>
+      simp at hn
+      have hmem : u ∈ rest := List.mem_of_getElem? hn
+      have hku : k ≠ u := by
+        intro hk
+        subst hk
+        have : rest.count k ≥ 1 := List.count_pos_iff.mpr hmem
+        simp at hcnt
+        omega
+      have hcnt' : rest.count u = 1 := by
+        simp [hku] at hcnt
+        exact hcnt
+      have key : ∀ (l : List (Nat × Nat)), ∃ l', (lmtpReplies (k :: rest) l fill)[m + 1]? = (lmtpReplies rest l' fill)[m]? ∧
+          l'.filter (fun x => x.1 == u) = l.filter (fun x => x.1 == u) := by
+        intro l
+        cases hfd : l.find? (fun s => s.1 == k) with
+        | none => exact ⟨l, by simp [lmtpReplies, hfd], rfl⟩
+        | some s =>
+          refine ⟨l.erase s, by simp [lmtpReplies, hfd], filter_erase_other l s u ?_⟩
+          have := List.find?_some hfd
+          simp at this
+          simp [this, hku]
+      obtain ⟨l1, e1, f1⟩ := key sts
+      obtain ⟨l2, e2, f2⟩ := key sts'
+      rw [e1, e2]
+      exact ih l1 l2 m hn hcnt' (by rw [f1, f2, h])
+
+/-- **250 for the `n`-th RCPT command ⇒ committed on every target it was routed to, for any rewrite table.** -/
+theorem C03_lmtp_success_reply_any_rewriting (rw : Nat → Option Nat) (cfg : Cfg) (oracle : List (List Nat))
+    (toks : List Tok) (t : Tok) (hl : cfg.lmtp = true) (n : Nat) (r : RcptF) :
+    let st := steps cfg (start oracle) (toks.map (rewriteTok rw))
+    st.rcpts[n]? = some r → (st.rcpts.map (·.uid)).count r.uid = 1 →
+    finalReplyAt t (step cfg st t).2 n = some 250 →
+    ∀ k ∈ targetsOf cfg (cfg.routes r.dom), ∃ e ∈ curEnts st.w,
+      e.tgt = k ∧ (r.uid, r.id) ∈ e.rcpts ∧ Ev.rcpt r.uid r.id true ∈ evsAt st.w.log e.idx ∧
+      HeldBy r.uid r.id (evsAt st.w.log e.idx) (evsAt (step cfg st t).1.w.log e.idx) :=
+  C03_lmtp_success_reply_implies_committed_partial cfg oracle (toks.map (rewriteTok rw)) t hl n r
+
+/-- **A failure reply for the `n`-th RCPT command reflects ITS OWN targets, for any rewrite table**: `Commit`
+failed, or a delivery that holds this very RCPT TO argument refused the body, or nothing was committed. -/
+theorem C03_lmtp_refused_reply_any_rewriting (rw : Nat → Option Nat) (cfg : Cfg) (oracle : List (List Nat))
+    (toks : List Tok) (t : Tok) (hl : cfg.lmtp = true) (n : Nat) (r : RcptF) (c : Nat) :
+    let st := steps cfg (start oracle) (toks.map (rewriteTok rw))
+    st.rcpts[n]? = some r → finalReplyAt t (step cfg st t).2 n = some c → c ≠ 250 →
+    RefusedBecause st (step cfg st t).1 r.uid :=
+  C03_lmtp_refused_reflects_own_target cfg oracle (toks.map (rewriteTok rw)) t hl n r c
+
+/-- every accepted recipient of a rewritten script is routed by the table: its domain is the table's entry
+for its RCPT TO argument whenever there is one -/
+theorem rewriteRcpt_dom (rw : Nat → Option Nat) (r : RcptF) (d : Nat) (h : rw r.uid = some d) :
+    (rewriteRcpt rw r).dom = d ∧ (rewriteRcpt rw r).uid = r.uid := by
+  simp [rewriteRcpt, h]
+
 /-! ### non-vacuity: concrete sessions that satisfy the hypotheses (evaluated by the kernel) -/
 
 section Examples
@@ -3930,6 +4021,34 @@ example : (run (exCfg false false 0) (start [])
     [⟨0, [.rcpt 2 0 true, .rcpt 4 1 true, .abort true]⟩, ⟨1, [.rcpt 2 0 true, .rcpt 4 1 true, .abort true]⟩] ∧
     (run (exCfg false false 0) (start [])
       [.greet, .mail exMail, .rcpt (exRcpt 2 0), .greet, .mail exMail, .rcpt (exRcpt 4 1), .bdat false (exData 0 []), .drop]).1.w.heldSrc = 0 := by
+  decide
+
+/-- An alias chain (seeded change C03-10): RCPT 102 is rewritten to the address RCPT 1 has (domain 1, target 0),
+RCPT 1 itself is rewritten into domain 2 (target 1); target 1 (atomic) refuses the body.  The replies belong to
+the RCPT commands: 250 for the first (its target 0 committed), 561 for the second (its target 1 was aborted) —
+hypotheses of `C03_lmtp_success_reply_any_rewriting` (n = 0) and `C03_lmtp_refused_reply_any_rewriting` (n = 1). -/
+def exChainCfg : Cfg := ⟨true, true, 2, 0, fun j => if j == 1 then 1 else if j == 2 then 2 else 0⟩
+def exChainRw : Nat → Option Nat := fun u => if u == 102 then some 1 else if u == 1 then some 2 else none
+def exChainToks : List Tok := [.greet, .mail exMail, .rcpt (exRcpt 102 4), .rcpt (exRcpt 1 4)]
+
+example : (step exChainCfg (steps exChainCfg (start []) (exChainToks.map (rewriteTok exChainRw))) (.data (exData 2 []))).2 =
+      .codes [354, 250, 561] ∧
+    (step exChainCfg (steps exChainCfg (start []) (exChainToks.map (rewriteTok exChainRw))) (.data (exData 2 []))).1.w.log =
+      [⟨0, [.rcpt 102 4 true, .body true, .commit true]⟩, ⟨1, [.rcpt 1 4 true, .body false, .abort true]⟩] ∧
+    ((steps exChainCfg (start []) (exChainToks.map (rewriteTok exChainRw))).rcpts.map (·.uid)).count 102 = 1 := by
+  decide
+
+/-- the same chain with a failing body check: both RCPT commands are refused, both deliveries aborted -/
+example : (step exChainCfg (steps exChainCfg (start []) (exChainToks.map (rewriteTok exChainRw))) (.data ⟨.plain, .perm, true, false, 0, []⟩)).2 =
+      .codes [354, 581, 581] := by
+  decide
+
+/-- two aliases of one mailbox and the mailbox itself (RCPT 103, 303 → domain 1; RCPT 3 is in domain 1), the
+atomic target 0 refuses the body: three RCPT commands, three failure replies -/
+example : (step exChainCfg (steps exChainCfg (start [])
+      ([Tok.greet, .mail exMail, .rcpt (exRcpt 103 4), .rcpt (exRcpt 303 4), .rcpt ⟨3, 4, 1, .plain, .perm, false, false, 0⟩].map
+        (rewriteTok (fun u => if u == 103 || u == 303 then some 1 else none)))) (.data (exData 1 []))).2 =
+      .codes [354, 560, 560, 560] := by
   decide
 
 end Examples
